@@ -9,6 +9,7 @@
 static char CTX[1200];                  /* configuration + frame/history of the current execution */
 static int  p_selftest; static char p_lastkey[200];
 static int  h_bad;                      /* a violation was reported in the current execution */
+static const char *p_key_prefix = "";   /* "low-level API: " while vbi_dvb_multiplex_sliced/_raw are driven directly */
 
 static void h_die(const char *fmt, ...)
 {
@@ -20,9 +21,10 @@ static void h_die(const char *fmt, ...)
 static void p_fail(const char *key, const char *fmt, ...)
 {
         static struct { char key[200]; int n; } seen[96]; static int nseen;
-        char det[700];
+        char det[700], pkey[240];
         va_list ap; va_start(ap, fmt); vsnprintf(det, sizeof det, fmt, ap); va_end(ap);
         h_bad = 1;
+        if (p_key_prefix[0]) { snprintf(pkey, sizeof pkey, "%s%s", p_key_prefix, key); key = pkey; }
         if (p_selftest) { snprintf(p_lastkey, sizeof p_lastkey, "%s", key); return; }
         /* true number of occurrences (the reports below are thinned out per process) */
         if (strstr(key, "field_parity goes back")) mc_count(strstr(key, "[a unit with undefined") ? "field_order_symptom_in_known_class_frames" : "field_order_symptom_in_other_frames", 1);
